@@ -200,7 +200,7 @@ def run_real_peers(pid, tier, v):
         total = 400 if thorough else 18
         quota = [("settle_timeout", total * 2 // 3), ("settle_normal", total // 4), ("restart", total // 6)]
     else:
-        total = 1000 if thorough else 30
+        total = 800 if thorough else 30
         quota = [("replaced_before_big", total // 3), ("settle_timeout", total // 6), ("restart", total // 8),
                  ("reconnect", total // 10), ("crashed", total // 4)]
     chosen = select(lines, quota, total, seed)
